@@ -56,10 +56,16 @@ def isEmpty (w : Worker) : Bool := w.running.isEmpty && w.starting.isEmpty
 def accept (w : Worker) (u : Uuid) : Worker :=
   { w with starting := sInsert w.starting u, state := .running }
 
-/-- The completion closure of `startContainer`, run when `rr.Start()` has returned:
-`updated = busy = now; delete(starting, uuid); running[uuid] = rr`. -/
+/-- The completion closure of `startContainer`, run when `rr.Start()` has returned. Since fix
+18910db it first checks `wkr.starting[uuid] != rr` and does nothing if a probe (or `Close`) has
+already moved or removed its runner; otherwise `updated = busy = now; delete(starting, uuid);
+running[uuid] = rr`. (`u ∈ starting` stands for "`starting[uuid]` is this closure's runner": a
+later `startContainer` of the same uuid on the same worker replaces the runner, which the callers
+of this function account for by not running a superseded closure.) -/
 def startDone (w : Worker) (u : Uuid) (now : Nat) : Worker :=
-  { w with updated := now, busy := now, starting := sRemove w.starting u, running := sInsert w.running u }
+  if w.starting.contains u then
+    { w with updated := now, busy := now, starting := sRemove w.starting u, running := sInsert w.running u }
+  else w
 
 /-- `wkr.closeRunner(uuid)`: nothing if `uuid` is not in `running`; otherwise remove it, stamp
 `updated`, and go Idle when nothing is left. The second component says whether
